@@ -519,3 +519,42 @@ Theorem C06_gen_stripe_factory :
   end.
 Proof. exact gen_stripe_dispatch. Qed.
 Print Assumptions C06_gen_stripe_factory.
+
+(* ---- WIRING-APPENDIX:BEGIN (generated by tools/gen_wiring_props.py; do not edit) ---- *)
+From CC Require Proofs.GenAgreeWiring_C06.
+Section Wiring_C06.
+Import Coq.Lists.List Coq.ZArith.ZArith Coq.Strings.String CC.Base.WiringExp CC.Gen.WiringSrc.
+Import ListNotations.
+Local Open Scope string_scope.
+
+Theorem C06_wiring_CubePartition_factory :
+  wsrc_CubePartition_factory = Some (WCall (WGlobal "__defaults__") [WIf (WCmp "==" (WAttr (WVar
+      "cube") "ndim") (WInt (0)%Z)) (WCall (WGlobal "_Nub") [WVar "cube"] []) (WIf (WBoolOp "or"
+      [WCmp "==" (WAttr (WVar "cube") "ndim") (WInt (1)%Z); WVar "ca_as_0th"]) (WCall (WGlobal
+      "_Strand") [WVar "cube"; WVar "transforms"; WVar "population"; WVar "ca_as_0th"; WVar
+      "slice_idx"; WVar "mask_size"] []) (WCall (WGlobal "_Slice") [WVar "cube"; WVar "slice_idx";
+      WVar "transforms"; WVar "population"; WVar "mask_size"] []))] [("slice_idx", WInt (0)%Z);
+      ("transforms", WNone); ("population", WNone); ("ca_as_0th", WNone); ("mask_size", WInt
+      (0)%Z)]).
+Proof. exact Proofs.GenAgreeWiring_C06.gen_wiring_CubePartition_factory. Qed.
+Print Assumptions C06_wiring_CubePartition_factory.
+
+Theorem C06_wiring_CubePartition_cube_index :
+  wsrc_CubePartition_cube_index = Some (WAttr (WSelf "_cube") "cube_index").
+Proof. exact Proofs.GenAgreeWiring_C06.gen_wiring_CubePartition_cube_index. Qed.
+Print Assumptions C06_wiring_CubePartition_cube_index.
+
+Theorem C06_wiring_Slice__measures :
+  wsrc_Slice__measures = Some (WCall (WGlobal "SecondOrderMeasures") [WSelf "_cube"; WSelf
+      "_dimensions"; WSelf "_slice_idx"] []).
+Proof. exact Proofs.GenAgreeWiring_C06.gen_wiring_Slice__measures. Qed.
+Print Assumptions C06_wiring_Slice__measures.
+
+Theorem C06_wiring_Strand__measures :
+  wsrc_Strand__measures = Some (WCall (WGlobal "StripeMeasures") [WSelf "_cube"; WSelf
+      "_rows_dimension"; WSelf "_ca_as_0th"; WSelf "_slice_idx"] []).
+Proof. exact Proofs.GenAgreeWiring_C06.gen_wiring_Strand__measures. Qed.
+Print Assumptions C06_wiring_Strand__measures.
+
+End Wiring_C06.
+(* ---- WIRING-APPENDIX:END ---- *)
